@@ -371,47 +371,52 @@ Proof.
   destruct (Nat.eqb (qid e) id) eqn:E; [apply Nat.eqb_eq in E; lia | exact IH].
 Qed.
 
+Lemma counts_ok_hit s s2 : counts_ok s -> hit s s2 -> counts_ok s2.
+Proof.
+  intros (I & B & C & L) HH.
+  assert (I2 : ids_ok s2).
+  { destruct HH as (r & s' & l1 & l2 & E & F & T & ->).
+    assert (HH : hit s (set_pend s' (l1 ++ l2))) by (exists r, s', l1, l2; auto).
+    revert HH. generalize (set_pend s' (l1 ++ l2)). intros s2 HH.
+    destruct (hit_facts _ _ HH) as (r0 & q & m1 & m2 & _ & _ & _ & Hf & _ & ER & _ & _ & EN & _).
+    destruct I as [S Fq]. unfold ids_ok. rewrite ER, EN.
+    destruct (dec_first_spec (matches (node s) r0) (reqs s)) as [[_ ->]|(n1 & q' & n2 & E' & _ & _ & _ & ->)]; [auto|].
+    rewrite E' in S, Fq. rewrite map_app in S. cbn [map] in S. rewrite Forall_app in Fq. destruct Fq as [F1 F2].
+    inversion F2 as [|? ? Fq' F2']; subst.
+    destruct (Nat.leb 2 (q_left q')); cbn [app].
+    + split; [rewrite map_app; cbn [map dec_left q_id]; exact S|]. rewrite Forall_app. split; [exact F1|]. constructor; auto.
+    + split; [rewrite map_app; exact (proj1 (sorted_app_inv _ _ _ S))|]. rewrite Forall_app. auto. }
+  split; [exact I2|].
+  destruct (hit_facts _ _ HH) as (r & q & l1 & l2 & _ & _ & _ & Hf & _ & ER & EL & _ & EN & _).
+  destruct (head_is_oldest s r q I Hf) as (Hin & _ & _).
+  rewrite Forall_forall in C. destruct (C q Hin) as [Hq1 Hq2].
+  destruct I as [S Fq]. rewrite EL, EN, ER.
+  split; [|split].
+  + constructor; [|exact B]. cbn [qid fst snd]. rewrite Forall_forall in Fq. exact (Fq q Hin).
+  + destruct (dec_first_spec (matches (node s) r) (reqs s)) as [[Hn _]|(m1 & q' & m2 & E & Hf' & _ & _ & ->)]; [congruence|].
+    assert (q' = q) by congruence. subst q'.
+    rewrite E in S. rewrite map_app in S. cbn [map] in S. destruct (sorted_app_inv _ _ _ S) as (_ & G1 & G2).
+    assert (OTH : forall x, In x m1 \/ In x m2 ->
+                            (1 <= q_left x <= q_tot x)%nat /\
+                            (count (q_id x) ((r_id r, q_id q, (q_tot q - q_left q)%nat) :: log s) + q_left x = q_tot x)%nat).
+    { intros x Hx. assert (Hx' : In x (reqs s)) by (rewrite E; apply in_or_app; destruct Hx; [left|right; right]; auto).
+      destruct (C x Hx') as [X1 X2]. split; [exact X1|]. rewrite count_cons. cbn [qid fst snd].
+      destruct (Nat.eqb (q_id q) (q_id x)) eqn:Ee; [|exact X2]. apply Nat.eqb_eq in Ee. exfalso.
+      rewrite Forall_forall in G1, G2. destruct Hx as [Hx|Hx].
+      - specialize (G1 _ (in_map q_id _ _ Hx)). lia.
+      - specialize (G2 _ (in_map q_id _ _ Hx)). lia. }
+    apply Forall_forall. intros x Hx. apply in_app_or in Hx. destruct Hx as [Hx|Hx]; [apply OTH; auto|].
+    apply in_app_or in Hx. destruct Hx as [Hx|Hx]; [|apply OTH; auto].
+    destruct (Nat.leb 2 (q_left q)) eqn:E2; [|destruct Hx]. destruct Hx as [<-|[]].
+    apply Nat.leb_le in E2. cbn [dec_left q_left q_tot q_id]. rewrite count_cons. cbn [qid fst snd].
+    rewrite Nat.eqb_refl. split; lia.
+  + cbn [log_ok pidx qid fst snd]. split; [lia | exact L].
+Qed.
+
 Lemma counts_ok_step s e s' : counts_ok s -> step s e = (s', None) -> counts_ok s'.
 Proof.
   apply (step_preserves counts_ok); clear.
-  - intros s s2 (I & B & C & L) HH.
-    assert (I2 : ids_ok s2).
-    { destruct HH as (r & s' & l1 & l2 & E & F & T & ->).
-      assert (HH : hit s (set_pend s' (l1 ++ l2))) by (exists r, s', l1, l2; auto).
-      revert HH. generalize (set_pend s' (l1 ++ l2)). intros s2 HH.
-      destruct (hit_facts _ _ HH) as (r0 & q & m1 & m2 & _ & _ & _ & Hf & _ & ER & _ & _ & EN & _).
-      destruct I as [S Fq]. unfold ids_ok. rewrite ER, EN.
-      destruct (dec_first_spec (matches (node s) r0) (reqs s)) as [[_ ->]|(n1 & q' & n2 & E' & _ & _ & _ & ->)]; [auto|].
-      rewrite E' in S, Fq. rewrite map_app in S. cbn [map] in S. rewrite Forall_app in Fq. destruct Fq as [F1 F2].
-      inversion F2 as [|? ? Fq' F2']; subst.
-      destruct (Nat.leb 2 (q_left q')); cbn [app].
-      + split; [rewrite map_app; cbn [map dec_left q_id]; exact S|]. rewrite Forall_app. split; [exact F1|]. constructor; auto.
-      + split; [rewrite map_app; exact (proj1 (sorted_app_inv _ _ _ S))|]. rewrite Forall_app. auto. }
-    split; [exact I2|].
-    destruct (hit_facts _ _ HH) as (r & q & l1 & l2 & _ & _ & _ & Hf & _ & ER & EL & _ & EN & _).
-    destruct (head_is_oldest s r q I Hf) as (Hin & _ & _).
-    rewrite Forall_forall in C. destruct (C q Hin) as [Hq1 Hq2].
-    destruct I as [S Fq]. rewrite EL, EN, ER.
-    split; [|split].
-    + constructor; [|exact B]. cbn [qid fst snd]. rewrite Forall_forall in Fq. exact (Fq q Hin).
-    + destruct (dec_first_spec (matches (node s) r) (reqs s)) as [[Hn _]|(m1 & q' & m2 & E & Hf' & _ & _ & ->)]; [congruence|].
-      assert (q' = q) by congruence. subst q'.
-      rewrite E in S. rewrite map_app in S. cbn [map] in S. destruct (sorted_app_inv _ _ _ S) as (_ & G1 & G2).
-      assert (OTH : forall x, In x m1 \/ In x m2 ->
-                              (1 <= q_left x <= q_tot x)%nat /\
-                              (count (q_id x) ((r_id r, q_id q, (q_tot q - q_left q)%nat) :: log s) + q_left x = q_tot x)%nat).
-      { intros x Hx. assert (Hx' : In x (reqs s)) by (rewrite E; apply in_or_app; destruct Hx; [left|right; right]; auto).
-        destruct (C x Hx') as [X1 X2]. split; [exact X1|]. rewrite count_cons. cbn [qid fst snd].
-        destruct (Nat.eqb (q_id q) (q_id x)) eqn:Ee; [|exact X2]. apply Nat.eqb_eq in Ee. exfalso.
-        rewrite Forall_forall in G1, G2. destruct Hx as [Hx|Hx].
-        - specialize (G1 _ (in_map q_id _ _ Hx)). lia.
-        - specialize (G2 _ (in_map q_id _ _ Hx)). lia. }
-      apply Forall_forall. intros x Hx. apply in_app_or in Hx. destruct Hx as [Hx|Hx]; [apply OTH; auto|].
-      apply in_app_or in Hx. destruct Hx as [Hx|Hx]; [|apply OTH; auto].
-      destruct (Nat.leb 2 (q_left q)) eqn:E2; [|destruct Hx]. destruct Hx as [<-|[]].
-      apply Nat.leb_le in E2. cbn [dec_left q_left q_tot q_id]. rewrite count_cons. cbn [qid fst snd].
-      rewrite Nat.eqb_refl. split; lia.
-    + cbn [log_ok pidx qid fst snd]. split; [lia | exact L].
+  - intros s s2 H HH. exact (counts_ok_hit s s2 H HH).
   - intros s r H. exact H.
   - intros s k c qa res n ar ws Hn (I & B & C & L).
     assert (I2 : ids_ok (enqueue s k c qa res n ar ws)).
@@ -646,3 +651,130 @@ Theorem type_mismatch_refuted :
   exists s, run (init_state 0 2) [Create (1, 0) true [0] 1 0 1 2 [WAll 2 0 10]; Resp (demo_resp false 0 1 1)] = Some s /\
             log s = [(0, 0, 0)%nat] /\ reqs s = [] /\ um s = [None; None].
 Proof. eexists. vm_compute. repeat split; reflexivity. Qed.
+
+(* ------------------------------------------------------------------ retire_exact, with persistence *)
+(* every request ever issued is either still queued (under its serial number, with its
+   number of pairs) or has been charged exactly its number of pairs *)
+Definition accounted (s : state) : Prop :=
+  forall id tot, In (id, tot) (issued s) ->
+    (id < next_req s)%nat /\
+    ((exists q, In q (reqs s) /\ q_id q = id /\ q_tot q = tot) \/
+     ((forall q, In q (reqs s) -> q_id q <> id) /\ count id (log s) = tot)).
+
+Definition retired_ok (s : state) : Prop := counts_ok s /\ accounted s.
+
+Lemma in_dec_first f l x :
+  In x (dec_first f l) -> exists y, In y l /\ q_id y = q_id x /\ q_tot y = q_tot x.
+Proof.
+  destruct (dec_first_spec f l) as [[_ ->]|(l1 & q & l2 & -> & _ & _ & _ & ->)]; [intros H; exists x; auto|].
+  intros H. apply in_app_or in H. destruct H as [H|H]; [exists x; split; [apply in_or_app; auto | auto]|].
+  apply in_app_or in H. destruct H as [H|H].
+  - destruct (Nat.leb 2 (q_left q)); [|destruct H]. destruct H as [<-|[]].
+    exists q. split; [apply in_or_app; right; left; reflexivity | auto].
+  - exists x. split; [apply in_or_app; right; right; exact H | auto].
+Qed.
+
+Lemma same_id_same_req s a b :
+  ids_ok s -> In a (reqs s) -> In b (reqs s) -> q_id a = q_id b -> a = b.
+Proof.
+  intros [S _] Ha Hb E. apply in_split in Ha. destruct Ha as (m1 & m2 & Em).
+  rewrite Em in S, Hb. rewrite map_app in S. cbn [map] in S. destruct (sorted_app_inv _ _ _ S) as (_ & G1 & G2).
+  rewrite Forall_forall in G1, G2. apply in_app_or in Hb. destruct Hb as [Hq|[Hq|Hq]].
+  - specialize (G1 _ (in_map q_id _ _ Hq)). lia.
+  - exact Hq.
+  - specialize (G2 _ (in_map q_id _ _ Hq)). lia.
+Qed.
+
+Lemma retired_ok_hit s s2 : retired_ok s -> hit s s2 -> retired_ok s2.
+Proof.
+  intros [CO AC] HH. split; [exact (counts_ok_hit s s2 CO HH)|].
+  destruct (hit_charges_head s s2 CO HH) as (r & q & _ & Hf & _ & EL & Hlt & Hret).
+  pose proof CO as (I & B & C & L).
+  destruct (hit_facts _ _ HH) as (r0 & q0 & l1 & l2 & _ & _ & _ & Hf0 & _ & ER & EL0 & _ & EN & EI & _).
+  destruct (head_is_oldest s r q I Hf) as (Hin & _ & _). destruct (head_is_oldest s r0 q0 I Hf0) as (Hin0 & _ & _).
+  assert (q0 = q).
+  { rewrite EL in EL0. inversion EL0 as [[E1 E2 E3]]. apply (same_id_same_req s q0 q I Hin0 Hin). auto. }
+  subst q0. clear Hin0.
+  intros id tot Hi. rewrite EI in Hi. destruct (AC id tot Hi) as [Hb Hc]. rewrite EN. split; [exact Hb|].
+  destruct (Nat.eq_dec id (q_id q)) as [->|NE].
+  - (* the request that was charged *)
+    assert (Ht : tot = q_tot q).
+    { destruct Hc as [(x & Hx & Hxi & Hxt)|[Hn _]]; [|exfalso; exact (Hn q Hin eq_refl)].
+      rewrite (same_id_same_req s x q I Hx Hin Hxi) in Hxt. auto. }
+    subst tot.
+    rewrite ER.
+    destruct (dec_first_spec (matches (node s) r0) (reqs s)) as [[Hn0 _]|(m1 & q' & m2 & E' & Hf' & _ & _ & EE)]; [congruence|].
+    assert (q' = q) by congruence. subst q'.
+    destruct (Nat.leb 2 (q_left q)) eqn:E2.
+    + left. exists (dec_left q). rewrite EE. split; [apply in_or_app; right; left; reflexivity|].
+      cbn [dec_left q_id q_tot]. auto.
+    + right.
+      assert (NX : ~ exists q'0, In q'0 (reqs s2) /\ q_id q'0 = q_id q).
+      { intros (x & Hx & Hxi). rewrite ER, EE in Hx. cbn [app] in Hx.
+        destruct I as [S _]. rewrite E' in S. rewrite map_app in S. cbn [map] in S.
+        destruct (sorted_app_inv _ _ _ S) as (_ & G1 & G2). rewrite Forall_forall in G1, G2.
+        apply in_app_or in Hx. destruct Hx as [Hx|Hx].
+        - specialize (G1 _ (in_map q_id _ _ Hx)). lia.
+        - specialize (G2 _ (in_map q_id _ _ Hx)). lia. }
+      split; [|apply Hret; exact NX]. intros x Hx Hxi. apply NX. exists x. rewrite ER. auto.
+  - (* any other request: untouched *)
+    rewrite EL, count_cons. cbn [qid fst snd]. destruct (Nat.eqb (q_id q) id) eqn:Ee; [apply Nat.eqb_eq in Ee; congruence|].
+    destruct Hc as [(x & Hx & Hxi & Hxt)|[Hn Hcnt]].
+    + left. rewrite ER.
+      destruct (dec_first_spec (matches (node s) r0) (reqs s)) as [[_ ->]|(m1 & q' & m2 & E' & Hf' & _ & _ & ->)]; [eauto|].
+      assert (q' = q) by congruence. subst q'. exists x. split; [|auto].
+      rewrite E' in Hx. apply in_app_or in Hx. destruct Hx as [Hx|[Hx|Hx]].
+      * apply in_or_app. auto.
+      * subst x. congruence.
+      * apply in_or_app. right. apply in_or_app. auto.
+    + right. split; [|exact Hcnt]. intros x Hx Hxi. rewrite ER in Hx.
+      destruct (in_dec_first _ _ _ Hx) as (y & Hy & Hyi & _). apply (Hn y Hy). congruence.
+Qed.
+
+Lemma retired_ok_step s e s' : retired_ok s -> step s e = (s', None) -> retired_ok s'.
+Proof.
+  apply (step_preserves retired_ok); clear.
+  - exact retired_ok_hit.
+  - intros s r H. exact H.
+  - intros s k c qa res n ar ws Hn [CO AC].
+    split.
+    + (* counts_ok of the enqueued state: through counts_ok_step on a Recv-free path is awkward; redo directly *)
+      destruct CO as (I & B & C & L).
+      assert (I2 : ids_ok (enqueue s k c qa res n ar ws)).
+      { destruct I as [S F]. unfold ids_ok. cbn [enqueue reqs next_req]. split.
+        + rewrite map_app. cbn [map q_id].
+          assert (G : forall l : list nat, StronglySorted lt l -> Forall (fun y => (y < next_req s)%nat) l ->
+                                           StronglySorted lt (l ++ [next_req s])).
+          { induction l as [|a l IH]; cbn [app]; intros SS FF; [constructor; constructor|].
+            apply StronglySorted_inv in SS. destruct SS as [S1 S2]. inversion FF; subst.
+            constructor; [apply IH; auto|]. rewrite Forall_app. split; [exact S2 | constructor; auto]. }
+          apply G; [exact S|]. rewrite Forall_map. exact F.
+        + rewrite Forall_app. split.
+          * eapply Forall_impl; [|exact F]. cbn. intros a Ha. lia.
+          * constructor; [cbn; lia | constructor]. }
+      split; [exact I2|]. cbn [enqueue reqs next_req log]. split; [|split; [|exact L]].
+      * eapply Forall_impl; [|exact B]. cbn. intros a Ha. lia.
+      * rewrite Forall_app. split; [exact C|]. constructor; [|constructor]. cbn [q_left q_tot q_id].
+        rewrite (count_zero _ _ B). split; lia.
+    + intros id tot Hi. cbn [enqueue issued reqs next_req log] in *. destruct Hi as [Hi|Hi].
+      * inversion Hi; subst. split; [lia|]. left. eexists. split; [apply in_or_app; right; left; reflexivity|]. cbn. auto.
+      * destruct (AC id tot Hi) as [Hb Hc]. split; [lia|]. destruct Hc as [(x & Hx & Hxi & Hxt)|[Hn0 Hcnt]].
+        -- left. exists x. split; [apply in_or_app; auto | auto].
+        -- right. split; [|exact Hcnt]. intros x Hx. apply in_app_or in Hx. destruct Hx as [Hx|[<-|[]]]; [auto | cbn; lia].
+  - intros s x H. exact H.
+  - intros s u us H. exact H.
+Qed.
+
+Lemma retired_ok_init nd n : retired_ok (init_state nd n).
+Proof. split; [apply counts_ok_init | intros id tot []]. Qed.
+
+(* retire_exact: after any event list, a request that has been issued and is no longer
+   outstanding has consumed exactly its number of pairs -- and this stays so *)
+Theorem retire_exact nd n es s id tot :
+  run (init_state nd n) es = Some s -> In (id, tot) (issued s) ->
+  (forall q, In q (reqs s) -> q_id q <> id) -> count id (log s) = tot.
+Proof.
+  intros R Hi Hn.
+  destruct (run_preserves retired_ok retired_ok_step es _ _ (retired_ok_init nd n) R) as [_ AC].
+  destruct (AC id tot Hi) as [_ [(x & Hx & Hxi & _)|[_ H]]]; [exfalso; exact (Hn x Hx Hxi) | exact H].
+Qed.
